@@ -572,6 +572,179 @@ def run_case(b, rundir, rng, part, cid, max_k=None, pair_limit=0, forced=None):
     part.count("cases")
 
 
+def _stub_log(path):
+    try:
+        with open(path) as fh:
+            return fh.read().split("\n")
+    except OSError:
+        return []
+
+
+def activation_run(b, rundir, k, nfail, held_kinds, part, wit):
+    """One fresh bus: three auto-start messages are held for a service whose stub is waiting at its gate; the fault is
+    armed for the dispatch of the stub's RequestName; the gate opens; the stub retries on NoMemory.  Returns
+    (result of hook H2, observations) or None when the run could not be set up."""
+    from checks import c19
+    os.makedirs(rundir, exist_ok=True)
+    os.chmod(rundir, 0o755)
+    svcdir = os.path.join(rundir, "services")
+    os.makedirs(svcdir, exist_ok=True)
+    name = b"com.example.ActOom"
+    logp = os.path.join(rundir, "stub.log")
+    with open(os.path.join(svcdir, "act.service"), "w") as fh:
+        fh.write("[D-BUS Service]\nName=%s\nExec=%s %s gate-quick %s %s\n" % (name.decode(), c19.PYTHON, c19.STUB, name.decode(), logp))
+    ctl, trace = os.path.join(rundir, "ctl"), os.path.join(rundir, "trace")
+    d = busproc.Daemon(b, rundir, busproc.make_config("@SOCK@", servicedirs=[svcdir], limits={"service_start_timeout": 25000}), name="act",
+                       env={"DBUS_VERIF_CTL": ctl, "DBUS_VERIF_TRACE": trace})
+    obs = None
+    try:
+        if not d.started():
+            part.inconclusive.append("activation: daemon did not start")
+            return None
+        clk = client.Clock()
+        senders = [client.connect(d.sock, clk), client.connect(d.sock, clk)]
+        sent = []
+        for i, kind in enumerate(held_kinds):
+            c = senders[i % 2]
+            tok = b"Held%d" % i
+            if kind == "signal":
+                ser = c.next_serial()
+                _, data = c.build(4, path=c19.ACT_PATH, iface=c19.ACT_IFACE, member=b"Sig", dest=name, sig=b"s", body=[tok], serial=ser)
+            else:
+                ser = c.next_serial()
+                _, data = c.build(1, path=c19.ACT_PATH, iface=c19.ACT_IFACE, member=b"Call", dest=name, sig=b"s", body=[tok], serial=ser,
+                                  flags=1 if kind == "call-noreply" else 0)
+            c.send_msg(data, ser)
+            c.barrier()                      # arrival order at the bus = this order
+            sent.append((i % 2, ser, kind, tok))
+        deadline = time.time() + client.WATCHDOG
+        uniq = wser = None
+        while time.time() < deadline and wser is None:
+            for ln in _stub_log(logp):
+                f = ln.split()
+                if f[:1] == ["connected"]:
+                    uniq = f[1]
+                if f[:1] == ["will-request"]:
+                    wser = int(f[1])
+            if wser is None:
+                time.sleep(0.01)
+        if wser is None or uniq is None:
+            part.inconclusive.append("activation: the stub did not reach its gate")
+            return None
+        tmp = ctl + ".tmp"
+        with open(tmp, "w") as fh:
+            fh.write("%d %s %u %d %d\n" % (k, uniq, wser, nfail, -1))
+        os.rename(tmp, ctl)
+        open(logp + ".go", "w").close()
+        got_name = False
+        nomem = 0
+        while time.time() < deadline and not got_name:
+            nomem = 0
+            for ln in _stub_log(logp):
+                f = ln.split()
+                if f[:1] == ["acquired"] and len(f) >= 3:
+                    if f[2] == "1":
+                        got_name = True
+                    elif "NoMemory" in f[2]:
+                        nomem += 1
+            if not got_name:
+                time.sleep(0.01)
+        # everybody's round-trips: what was held has been delivered (and logged by the single-threaded stub) or refused
+        for c in senders:
+            c.barrier()
+        probe = senders[0].call(name, c19.ACT_PATH, c19.ACT_IFACE, b"Call", b"s", [b"after"]) if got_name else None
+        for c in senders:
+            c.barrier()
+        delivered = []
+        for ln in _stub_log(logp):
+            f = ln.split()
+            if f[:1] == ["msg"] and len(f) >= 7 and f[6].startswith("Held"):
+                delivered.append(f[6])
+        errors = {}
+        for si, ser, kind, tok in sent:
+            errs = [r for r in senders[si].log if r.msg.type == 3 and r.msg.known().get(5) == ser and r.msg.known().get(7) == b"org.freedesktop.DBus"]
+            errors[tok.decode()] = [(r.msg.known().get(4) or b"?").decode() for r in errs]
+        try:
+            with open(ctl + ".result") as fh:
+                f = fh.read().split()
+            res = (int(f[-2]), int(f[-1]))
+        except (OSError, ValueError, IndexError):
+            res = None
+        for c in senders:
+            c.close()
+        return res, {"got_name": got_name, "nomem_replies": nomem, "delivered": delivered, "errors": errors,
+                     "sent": [t.decode() for _, _, _, t in sent], "probe_ok": bool(probe is not None and probe.msg.type == 2)}
+    except (client.Closed, client.Timeout) as e:
+        return "hang", {"error": type(e).__name__}
+    finally:
+        d.stop()
+        for cls, site, text in d.problems():
+            part.violation("%s:%s:%s:activation" % (PROP, _norm(cls), site), "daemon reported %s while the activated service requested its name (k=%d)" % (cls, k),
+                           dict(wit, k=k, stderr=text[-2500:]))
+        for ln in _stub_log(os.path.join(rundir, "stub.log")):
+            if ln.startswith("started "):
+                try:
+                    os.kill(int(ln.split()[1]), 9)
+                except (OSError, ValueError):
+                    pass
+        shutil.rmtree(rundir, ignore_errors=True)
+
+
+def activation_part(b, rundir, seed, shard, nshards, part):
+    """RequestName of an activated service with held messages waiting, under every failing allocation k = shard mod
+    nshards: afterwards (the stub retries on NoMemory) every held message has been delivered exactly once, in arrival
+    order, or its sender has exactly one error - never neither, never both."""
+    rng = gen.rng_for(seed, PROP, "activation")
+    held_kinds = [rng.choice(["call", "call-noreply", "signal"]) for _ in range(3)]
+    if "call" not in held_kinds:
+        held_kinds[0] = "call"
+    wit = {"part": "activation", "held": held_kinds, "seed": seed}
+    ref = activation_run(b, os.path.join(rundir, "act-ref"), 1 << 30, 1, held_kinds, part, wit)
+    if ref is None or ref[0] in (None, "hang"):
+        part.inconclusive.append("activation: no reference run (%r)" % (ref,))
+        return
+    n_alloc = ref[0][1]
+    if ref[1]["delivered"] != ref[1]["sent"] or any(ref[1]["errors"].values()):
+        part.violation("%s:activation:reference-run-wrong" % PROP, "without any fault the held messages were not delivered once in order: %r" % (ref[1],), wit)
+        return
+    part.count("activation:allocations-of-the-RequestName-dispatch", n_alloc if shard == 0 else 0)
+    for k in range(shard, n_alloc, nshards):
+        for nfail in (1, 2):
+            out = activation_run(b, os.path.join(rundir, "act-k"), k, nfail, held_kinds, part, wit)
+            if out is None:
+                continue
+            res, o = out
+            wk = dict(wit, k=k, nfail=nfail, observed=o)
+            part.evaluations += 1
+            part.count("activation:runs")
+            if res == "hang":
+                part.violation("%s:activation:hang" % PROP, "no progress after allocation %d of the activated service's RequestName failed" % k, wk)
+                continue
+            if o["nomem_replies"]:
+                part.count("activation:RequestName-cancelled-and-retried")
+            if not o["got_name"]:
+                part.violation("%s:activation:name-not-acquired-on-retry" % PROP, "the service did not get its name although it retried after NoMemory", wk)
+                continue
+            order = [t for t in o["sent"] if t in o["delivered"]]
+            if [t for t in o["delivered"] if o["delivered"].count(t) > 1]:
+                part.violation("%s:activation:held-message-delivered-twice" % PROP, "a held message reached the service more than once: %r" % o["delivered"], wk)
+            elif o["delivered"] != order:
+                part.violation("%s:activation:held-messages-out-of-order" % PROP, "held messages arrived as %r, sent as %r" % (o["delivered"], o["sent"]), wk)
+            for t in o["sent"]:
+                nd, ne = o["delivered"].count(t), len(o["errors"].get(t, []))
+                if nd == 0 and ne == 0:
+                    part.violation("%s:activation:held-message-lost%s" % (PROP, ":after-cancelled-RequestName" if o["nomem_replies"] else ""),
+                                   "held message %s was neither delivered to the service nor answered with an error (RequestName got NoMemory "
+                                   "%d time(s) and was retried)" % (t, o["nomem_replies"]), wk)
+                elif nd and ne:
+                    part.violation("%s:activation:held-message-delivered-and-errored" % PROP, "held message %s was delivered and its sender got %r" % (t, o["errors"][t]), wk)
+                elif ne > 1:
+                    part.violation("%s:activation:held-message-errored-%d-times" % (PROP, ne), "sender of %s got %r" % (t, o["errors"][t]), wk)
+                else:
+                    part.count("activation:held-message-%s" % ("delivered" if nd else "errored"))
+            part.sig("activation", tuple(held_kinds), bool(o["nomem_replies"]), tuple(sorted((t, o["delivered"].count(t), len(o["errors"].get(t, []))) for t in o["sent"])))
+
+
 def _norm(cls):
     import re
     return re.sub(r"com\.example\.[A-Za-z]+", "NAME", cls)
@@ -599,6 +772,11 @@ def _worker(args):
             except (client.Timeout, client.Closed, RuntimeError) as e:
                 part.inconclusive.append("case %d aborted: %s %s" % (cid, type(e).__name__, e))
             shutil.rmtree(os.path.join(rundir, "c%d" % i), ignore_errors=True)
+            if i == 0:
+                try:
+                    activation_part(b, os.path.join(rundir, "act"), seed, shard, 16, part)
+                except (client.Timeout, client.Closed, RuntimeError, OSError) as e:
+                    part.inconclusive.append("activation part aborted: %s %s" % (type(e).__name__, e))
             if shard == 0 and 2 <= i < 4:
                 s, op, shape = gen_case(gen.rng_for(seed, PROP, shard, i))
                 part.sample({"case": cid, "setup": [repr(x) for x in s], "op": repr(op)})
